@@ -812,6 +812,15 @@ pub fn sdk_commands() -> Commands {
     c
 }
 
+/// names of the SDK commands that are themselves written in duckscript (their help carries the source)
+pub fn script_command_names() -> &'static BTreeSet<String> {
+    static NAMES: std::sync::OnceLock<BTreeSet<String>> = std::sync::OnceLock::new();
+    NAMES.get_or_init(|| {
+        let c = sdk_commands();
+        c.commands.iter().filter(|(_, v)| v.help().contains("#### Source:")).map(|(k, _)| k.clone()).collect()
+    })
+}
+
 pub fn sdk_context() -> Context {
     let mut context = Context::new();
     context.commands = sdk_commands();
